@@ -407,6 +407,9 @@ E('zeta', 's P', key='hurwitz', fam='D', tol=8, cost=2, maxprec=400)
 E('zeta', 's =1 i:1:2', key='zeta_deriv', fam='D', tol=8, cost=3, maxprec=200)
 E('zeta', lambda r, c: {'t': 'mpc', 'v': [[0, '1', -1], mpf_spec(r, 7, 12, sign=0, maxwidth=53)['v']]},
   key='zeta_rs', fam='D', tol=10, cost=2, maxprec=200)      # heights 128..4096: the sieved zeta sum (prime sieve caches)
+E('zeta', lambda r, c: {'t': 'mpc', 'v': [[0, '1', -1], mpf_spec(r, 15, 20, sign=0, maxwidth=53)['v']]},
+  key='zeta_rs_hi', fam='D', tol=10, cost=2, maxprec=64, ctxs=MPFP)      # |t| > 500*prec: the Riemann-Siegel path (rs_zeta, coefficient cache in ctx._mp)
+E('siegelz', lambda r, c: mpf_spec(r, 15, 20, sign=0, maxwidth=53), key='siegelz_hi', fam='D', tol=10, cost=2, maxprec=64, ctxs=MPFP)
 E('altzeta', 's', fam='D', tol=8, cost=2)
 E('dirichlet', 's ivec', fam='D', tol=8, cost=2, maxprec=300)
 E('polylog', 'k W', fam='D', tol=8, cost=2)
